@@ -65,8 +65,10 @@ pub fn self_test() -> Result<(), String> {
     let sample: Vec<u8> = vec![0x46, 0x0f, 0x08, 0x69, 0x01, 0x23, 0x34, 0xc8, 0x00, 0x80, 0x01, 0x00, 0x56];
     let base = crc8(&sample);
     let nbits = sample.len() * 8;
-    for off in 0..nbits {
-        for pat in 0..128u16 {
+    // the interpreter (Miri) build runs a thinned version of this self-test
+    let (off_step, pat_step) = if cfg!(miri) { (13, 31) } else { (1, 1) };
+    for off in (0..nbits).step_by(off_step) {
+        for pat in (0..128u16).step_by(pat_step) {
             let mut x = sample.clone();
             let pattern = 0x80u16 | pat; // leading bit set, 8 bits wide
             let mut changed = false;
